@@ -46,7 +46,7 @@ def parseKind : String → Option Kind
 def showDeliver (labels : List ((Nat × Nat × Nat × Sig) × (String × String))) (r : HState × Option Cmd × List (Nat × Kind × Cmd)) : String :=
   s!"acc={if r.2.1.isSome then 1 else 0} fwd={showSends labels r.2.2}"
 
-def step (s : St) (line : String) : St × String :=
+def stepCore (s : St) (line : String) : St × String :=
   match tokens line with
   | ["reset", sg, w, ttl, mx] =>
     match w.toNat?, ttl.toNat?, mx.toNat? with
@@ -78,7 +78,7 @@ def step (s : St) (line : String) : St × String :=
     | none => (s, "bad-op")
   | ["cleanup"] =>
     if !s.maybe.isEmpty then (s, "unsupported-after-eviction") else
-    let l1 := expire s.h.f.seen s.h.now s.cfg.ttl
+    let l1 := expire s.h.f.seen s.h.now (sleepTtl s.cfg)
     let excess := l1.length - s.cfg.maxSize
     if excess = 0 then
       ({ s with h := { s.h with f := { s.h.f with seen := l1 } } }, s!"n={l1.length}")
@@ -96,6 +96,13 @@ def step (s : St) (line : String) : St × String :=
       ({ s with h := r.1 }, s!"fwd={showSends s.labels r.2.2}")
     | none => (s, "bad-op")
   | _ => (s, "bad-op")
+
+/-- The real clock moves between any two operations (by much less than a second, but strictly):
+    one model nanosecond per op, so an age equal to a TTL to the second counts as exceeded, as on
+    the real clock. -/
+def step (s : St) (line : String) : St × String :=
+  let (s', out) := stepCore s line
+  if (tokens line).head? == some "reset" then (s', out) else ({ s' with h := { s'.h with now := s'.h.now + 1 } }, out)
 
 /-! `spec` mode: the property evaluated on the implementation's own answers, statefully per case.
     (1) C29: a validly signed command (ideal signatures, described by its tokens) is accepted at
@@ -139,7 +146,7 @@ def specStep (s : SpecSt) (line : String) (implOut : String) : SpecSt × String 
           match s.accepted.find? (·.1 == key) with
           | none => ({ s with accepted := (key, s.vnow) :: s.accepted }, "ok")
           | some e =>
-            if (s.vnow - e.2) * 1000 > s.ttlMs then (s, "fail signed-command-accepted-twice-after-ttl-expiry")
+            if (s.vnow - e.2) * 1000 > max s.ttlMs (2 * s.wSec * 1000) then (s, "fail signed-command-accepted-twice-after-ttl-expiry")
             else (s, "fail signed-command-accepted-twice-after-eviction")
     | _, _, _ => (s, "ok")
   | ["peer", _], [fwd] =>
